@@ -1,0 +1,125 @@
+//go:build verif
+
+// Contracts for package endorse, checked by /verif (govc). Comment-only; compiled only under -tags verif.
+package endorse
+
+//@ func FromContext trusted
+//@   assigns nothing
+//@   ensures (err == nil) == (ecOf(ctx) != nil)
+//@   ensures err == nil ==> result == ecOf(ctx)
+//@   ensures err != nil ==> result == nil
+
+//@ func tryChange
+//@   modifies copsCalls, lastRead, marshalOf, parsedWasLastRead, pbsrc, pbok, vcGetOps, vcOpened, vcResults, copsDestroyed, copsCommitTries, copsCommitsOK, lastRetriable
+//@   requires change != nil
+//@   requires ecOf(ctx).VCS != nil
+//@   sweep[C15] nilinvoke nilcall
+//@   callspec change requires[C15] ecOf(p0) != nil && (p1 == nil) == ecOf(p0).DryRun
+//@   ensures[C14] vcGetOps <= old(vcGetOps) + 1
+//@   ensures[C14] err != nil ==> copsDestroyed - old(copsDestroyed) == vcOpened - old(vcOpened)
+//@   ensures[C14] err == nil ==> copsDestroyed == old(copsDestroyed)
+//@   ensures[C14] err == nil ==> vcResults == old(vcResults) + 1 && (ecOf(ctx).DryRun || copsCommitsOK == old(copsCommitsOK) + 1)
+//@   ensures[C14] err != nil ==> vcResults == old(vcResults) && copsCommitsOK == old(copsCommitsOK)
+//@   ensures[C15] ecOf(ctx) != nil && ecOf(ctx).DryRun ==> vcGetOps == old(vcGetOps) && copsCalls == old(copsCalls)
+
+//@ func RetrySubmit
+//@   modifies copsCalls, lastRead, marshalOf, parsedWasLastRead, pbsrc, pbok, vcGetOps, vcOpened, vcResults, copsDestroyed, copsCommitTries, copsCommitsOK, lastRetriable
+//@   requires f != nil
+//@   requires ecOf(ctx) == nil || (ecOf(ctx).VCS != nil && ecOf(ctx).CommitRetries < 9223372036854775807)
+//@   sweep[C15] nilinvoke nilcall
+//@   ensures[C14] ecOf(ctx) != nil ==> vcGetOps - old(vcGetOps) <= ite(ecOf(ctx).CommitRetries > 0, ecOf(ctx).CommitRetries, 0) + 1
+//@   ensures[C14] err == nil ==> vcResults == old(vcResults) + 1
+//@   ensures[C14] err != nil ==> vcResults == old(vcResults) && copsCommitsOK == old(copsCommitsOK)
+//@   ensures[C14] err != nil ==> copsDestroyed - old(copsDestroyed) == vcOpened - old(vcOpened)
+//@   ensures[C15] ecOf(ctx) != nil && ecOf(ctx).DryRun ==> vcGetOps == old(vcGetOps) && copsCalls == old(copsCalls)
+//@   loop 1 invariant ec == ecOf(ctx) && ec != nil && 0 <= tries && (tries == 0 || tries <= ec.CommitRetries)
+//@   loop 1 invariant vcGetOps - old(vcGetOps) <= tries && vcResults == old(vcResults) && copsCommitsOK == old(copsCommitsOK)
+//@   loop 1 invariant copsDestroyed - old(copsDestroyed) == vcOpened - old(vcOpened)
+//@   loop 1 invariant[C14] tries == 0 || lastRetriable
+//@   loop 1 invariant ec.DryRun ==> vcGetOps == old(vcGetOps) && copsCalls == old(copsCalls)
+
+//@ func makeEvents
+//@   modifies marshalOf, pbsrc, pbok
+//@   assigns nothing
+
+//@ func fileExists
+//@   modifies copsCalls, lastRead
+//@   sweep[C15] nilinvoke nilcall
+//@   ensures[C15] cops == nil ==> copsCalls == old(copsCalls) && err == nil && !result
+
+//@ func writeEndorsement
+//@   modifies copsCalls, marshalOf
+//@   sweep[C15] nilinvoke nilcall
+//@   ensures[C15] cops == nil ==> copsCalls == old(copsCalls) && vcGetOps == old(vcGetOps)
+
+//@ func defaultGenerateBasename
+//@   modifies copsCalls, lastRead
+//@   requires ecOf(ctx) != nil
+//@   requires ecOf(ctx).VCS != nil
+//@   sweep[C15] nilinvoke nilcall
+//@   ensures[C15] cops == nil ==> copsCalls == old(copsCalls) && vcGetOps == old(vcGetOps)
+
+//@ func addEndorsement
+//@   modifies copsCalls, lastRead, marshalOf
+//@   requires ecOf(ctx) != nil
+//@   requires endorsementMap != nil
+//@   requires ecOf(ctx).VCS != nil
+//@   sweep[C15] nilinvoke nilcall
+//@   ensures[C15] cops == nil ==> copsCalls == old(copsCalls) && vcGetOps == old(vcGetOps)
+
+//@ func snapshotEndorsement
+//@   modifies copsCalls, lastRead, marshalOf, pbsrc, pbok
+//@   requires ecOf(ctx) != nil
+//@   requires ecOf(ctx).VCS != nil
+//@   sweep[C15] nilinvoke nilcall
+//@   ensures[C15] cops == nil ==> copsCalls == old(copsCalls) && vcGetOps == old(vcGetOps)
+
+//@ func changeEndorsements
+//@   modifies copsCalls, lastRead, marshalOf, parsedWasLastRead, pbsrc, pbok
+//@   requires ecOf(ctx) != nil && ecOf(ctx).VCS != nil && (cops == nil) == ecOf(ctx).DryRun
+//@   sweep[C15] nilinvoke nilcall
+//@   ensures[C15] ecOf(ctx).DryRun ==> copsCalls == old(copsCalls) && vcGetOps == old(vcGetOps)
+//@   ensures[C14] err == nil && !ecOf(ctx).DryRun && ecOf(ctx).SnapshotDir == "" ==> parsedWasLastRead
+
+//@ func commitEndorsement$1
+//@   modifies copsCalls, lastRead, marshalOf, parsedWasLastRead, pbsrc, pbok
+//@   requires ecOf(ctx) != nil && ecOf(ctx).VCS != nil && (cops == nil) == ecOf(ctx).DryRun
+//@   sweep[C15] nilinvoke nilcall
+//@   ensures[C15] ecOf(ctx).DryRun ==> copsCalls == old(copsCalls) && vcGetOps == old(vcGetOps)
+
+//@ func commitEndorsement
+//@   modifies copsCalls, lastRead, marshalOf, parsedWasLastRead, pbsrc, pbok, vcGetOps, vcOpened, vcResults, copsDestroyed, copsCommitTries, copsCommitsOK, lastRetriable
+//@   requires ecOf(ctx) == nil || (ecOf(ctx).VCS != nil && ecOf(ctx).CommitRetries < 9223372036854775807)
+//@   sweep[C15] nilinvoke nilcall
+//@   ensures[C15] ecOf(ctx) != nil && ecOf(ctx).DryRun ==> copsCalls == old(copsCalls) && vcGetOps == old(vcGetOps)
+
+//@ func GoldenMeasurement
+//@   modifies snpImage, tdxImage, pbsrc, pbok
+//@   assigns[C15] nothing
+//@   ensures[C06] err == nil ==> result != nil && ecOf(ctx) != nil && val(result.Digest) == sha384(val(ecOf(ctx).Image)) && len(result.Digest) == 48
+//@   ensures[C06] err == nil ==> result.ClSpec == ecOf(ctx).ClSpec && val(result.Commit) == val(ecOf(ctx).Commit)
+//@   ensures[C06] err == nil ==> (ecOf(ctx).SevSnp != nil) == (result.SevSnp != nil) && (ecOf(ctx).Tdx != nil) == (result.Tdx != nil)
+//@   ensures[C06] err == nil && ecOf(ctx).SevSnp != nil ==> snpImage == val(ecOf(ctx).Image) && val(result.SevSnp.SvsmMeasurement) == val(ecOf(ctx).SvsmSnpMeasurement)
+//@   ensures[C06] err == nil && ecOf(ctx).Tdx != nil ==> tdxImage == val(ecOf(ctx).Image)
+//@   ensures[C15] signerCalls == old(signerCalls) && caCalls == old(caCalls) && vcGetOps == old(vcGetOps) && copsCalls == old(copsCalls)
+
+//@ func SignDoc
+//@   modifies signerCalls, caCalls, sigKey, sigDigest, lastSig, caPrimary, certKeyArg, lastCert, bundleKeyArg, lastBundle, marshalOf
+//@   requires doc != nil
+//@   assigns doc.Cert, doc.CaBundle, doc.Timestamp
+//@   ensures[C03] err == nil ==> result != nil && sigKey == caPrimary && certKeyArg == caPrimary && bundleKeyArg == caPrimary
+//@   ensures[C03] err == nil ==> sigDigest == sha256(val(result.SerializedUefiGolden)) && val(result.Signature) == lastSig
+//@   ensures[C03,C06] err == nil ==> pb("VMGoldenMeasurement.Cert", val(result.SerializedUefiGolden)) == lastCert && pb("VMGoldenMeasurement.CaBundle", val(result.SerializedUefiGolden)) == lastBundle
+//@   ensures[C03,C06] err == nil ==> marshalOf[doc] == val(result.SerializedUefiGolden) && pb("VMGoldenMeasurement.Digest", val(result.SerializedUefiGolden)) == val(doc.Digest) && pb("VMGoldenMeasurement.ClSpec", val(result.SerializedUefiGolden)) == doc.ClSpec
+//@   ensures[C06] err == nil ==> unchanged(doc.SevSnp) && unchanged(doc.Tdx) && unchanged(doc.Digest) && doc.Timestamp != nil
+//@   ensures[C15] vcGetOps == old(vcGetOps) && copsCalls == old(copsCalls)
+
+//@ func VirtualFirmware
+//@   modifies copsCalls, lastRead, marshalOf, parsedWasLastRead, pbsrc, pbok, vcGetOps, vcOpened, vcResults, copsDestroyed, copsCommitTries, copsCommitsOK, lastRetriable, signerCalls, caCalls, sigKey, sigDigest, lastSig, caPrimary, certKeyArg, lastCert, bundleKeyArg, lastBundle, snpImage, tdxImage
+//@   requires ecOf(ctx) == nil || (ecOf(ctx).CommitRetries < 9223372036854775807 && forall(i, 0 <= i && i < len(ecOf(ctx).VCSs) ==> ecOf(ctx).VCSs[i] != nil))
+//@   sweep[C15] nilinvoke nilcall
+//@   ensures[C15] ecOf(ctx) != nil && old(ecOf(ctx).MeasurementOnly) ==> signerCalls == old(signerCalls) && caCalls == old(caCalls) && vcGetOps == old(vcGetOps) && copsCalls == old(copsCalls)
+//@   ensures[C15] ecOf(ctx) != nil && old(ecOf(ctx).DryRun) ==> vcGetOps == old(vcGetOps) && copsCalls == old(copsCalls)
+//@   loop 1 invariant ec == ecOf(ctx) && ec != nil && ec.DryRun == old(ecOf(ctx).DryRun) && ec.CommitRetries < 9223372036854775807
+//@   loop 1 invariant ec.DryRun ==> vcGetOps == old(vcGetOps) && copsCalls == old(copsCalls)
+//@   loop 1 invariant forall(i, 0 <= i && i < len(ec.VCSs) ==> ec.VCSs[i] != nil)
